@@ -119,8 +119,8 @@ func (b c05Block) sortedUpdated() ([]int, []accLeaf) {
 type c05Undo struct {
 	acc        consensus.ElementAccumulator
 	numLeaves  int
-	oldContent []accLeaf // content of the updated leaves before the block
-	oldProofs  [][]accHash  // their proofs before the block
+	oldContent []accLeaf   // content of the updated leaves before the block
+	oldProofs  [][]accHash // their proofs before the block
 	block      c05Block
 }
 
